@@ -258,6 +258,25 @@ func (t *Thread) Yield(args []Value) ([]Value, error) {
 // This turns off the thread, cleaning up its close stack.  The thread must be
 // running.
 func (t *Thread) end(args []Value, err error, exception interface{}) {
+	// The pending to-be-closed values are closed first, while the thread is
+	// still the running one and no lock is held: their __close handlers are Lua
+	// code, which may itself resume or close other coroutines.  If the context
+	// was terminated no more Lua code must run, so they are discarded (as
+	// CallContext does).
+	if exception == nil {
+		func() {
+			defer func() {
+				if r := recover(); r != nil {
+					if _, ok := r.(ContextTerminationError); !ok {
+						panic(r)
+					}
+					exception = r
+				}
+			}()
+			err = t.cleanupCloseStack(nil, 0, err) // TODO: not nil
+		}()
+	}
+	t.closeStack.truncate(0)
 	caller := t.caller
 	t.mux.Lock()
 	caller.mux.Lock()
@@ -272,7 +291,6 @@ func (t *Thread) end(args []Value, err error, exception interface{}) {
 	close(t.resumeCh)
 	t.status = ThreadDead
 	t.caller = nil
-	err = t.cleanupCloseStack(nil, 0, err) // TODO: not nil
 	t.closeErr = err
 	// Release the goroutine's stack before handing control back to the caller:
 	// once the caller runs, this goroutine must not touch the runtime any more
